@@ -755,6 +755,10 @@ func (p *PolicyManager) SyncPodIPInIPSet(pod *corev1.Pod, add bool) {
 
 // #lizard forgives
 func (p *PolicyManager) syncIngressInIPSet(policy *policy, pod *corev1.Pod, add bool) {
+	if policy.ingressRule == nil {
+		// policyTypes doesn't include Ingress, ingress rules are ignored
+		return
+	}
 	for i, ingress := range policy.np.Spec.Ingress {
 		for _, peer := range ingress.From {
 			if peer.PodSelector != nil {
@@ -786,6 +790,10 @@ func (p *PolicyManager) syncIngressInIPSet(policy *policy, pod *corev1.Pod, add 
 
 // #lizard forgives
 func (p *PolicyManager) syncEgressInIPSet(policy *policy, pod *corev1.Pod, add bool) {
+	if policy.egressRule == nil {
+		// policyTypes doesn't include Egress, egress rules are ignored
+		return
+	}
 	for i, egress := range policy.np.Spec.Egress {
 		for _, peer := range egress.To {
 			if peer.PodSelector != nil {
